@@ -1,5 +1,11 @@
-"""Registers every translator (name -> module, source file, generated file)."""
+"""Registers every translator: each translate/t_*.py declares NAME, SRC (file under
+src/halmos) and OUT (file under coq/Gen) next to translate()/selfcheck()."""
+import importlib
+from pathlib import Path
+
 from harness import common
 
 common.TRANSLATORS.clear()
-common.register_translator("T-opcodes", "translate.t_opcodes", "contract.py", "GenOpcodes.v")
+for p in sorted((common.VERIF / "translate").glob("t_*.py")):
+    mod = importlib.import_module(f"translate.{p.stem}")
+    common.register_translator(mod.NAME, f"translate.{p.stem}", mod.SRC, mod.OUT)
